@@ -28,6 +28,7 @@ import (
 	"mime"
 	"mime/multipart"
 	"net/http"
+	"net/http/httputil"
 	"net/url"
 	"strings"
 	"sync"
@@ -765,9 +766,16 @@ func postData(req *http.Request, logBody bool) (*PostData, error) {
 		return nil, err
 	}
 
-	br, err := mv.BodyReader()
+	rc, err := mv.BodyReader()
 	if err != nil {
 		return nil, err
+	}
+
+	// The snapshot holds the body as framed on the wire. Chunking is hop-by-hop framing, not
+	// part of the body the origin receives, so it is removed here; the content coding is kept.
+	var br io.Reader = rc
+	if te := req.TransferEncoding; len(te) > 0 && te[len(te)-1] == "chunked" {
+		br = httputil.NewChunkedReader(rc)
 	}
 
 	switch mt {
